@@ -53,6 +53,7 @@ class Tty:
         self.flags = _os.O_RDWR if flags is None else flags
         self.read_count = 0
         self.tcset_count = 0
+        self.last_arrival = 0.0
 
 
 class Pipe:
@@ -91,6 +92,7 @@ class Kernel:
                 fd += 1
         self.fds[fd] = obj
         self.opened += 1
+        obj.serial = self.opened
         return fd
 
     def open_tty(self, attrs=None, flags=None, fd=None):
@@ -110,6 +112,11 @@ class Kernel:
 
     def open_fds(self):
         return sorted(self.fds)
+
+    def open_files(self):
+        """open descriptors by identity ("fd<number>#<serial>"): descriptor numbers are recycled, so accounting for
+        who holds what over several uses cannot go by number"""
+        return ["fd%d#%d" % (fd, self.fds[fd].serial) for fd in sorted(self.fds)]
 
     # ------------------------------------------------------------- syscalls
     def pipe(self):
@@ -150,6 +157,11 @@ class Kernel:
         if o is None:
             return True   # select would fail with EBADF: "ready" so the caller sees it
         if o.kind == "tty":
+            if not (o.attrs[3] & _termios.ICANON):
+                # n_tty_poll: with MIN > 0 and TIME == 0 the tty is readable once MIN characters are there
+                vmin, vtime = o.attrs[6][_termios.VMIN], o.attrs[6][_termios.VTIME]
+                if vmin > 1 and vtime == 0:
+                    return len(o.inq) >= vmin
             return o.readable_len() > 0
         if o.kind == "pr":
             return len(o.pipe.buf) > 0 or not o.pipe.w_open
@@ -174,6 +186,13 @@ class Kernel:
             buf = o.pipe.buf
         def avail():
             return o.readable_len() if o.kind == "tty" else len(buf)
+        if o.kind == "tty" and not (o.attrs[3] & _termios.ICANON):
+            vmin, vtime = o.attrs[6][_termios.VMIN], o.attrs[6][_termios.VTIME]
+            if (vmin, vtime) != (1, 0):
+                data = self._read_noncanon(fd, o, n, vmin, vtime, f)
+                if data and self.on_tty_read is not None:
+                    self.on_tty_read(fd, data)
+                return data
         if not avail():
             if o.kind == "pr" and not o.pipe.w_open:
                 self.w.log.add("read", fd, n, b"")
@@ -195,6 +214,40 @@ class Kernel:
         self.w.log.add("read", fd, n, data)
         if o.kind == "tty" and self.on_tty_read is not None:
             self.on_tty_read(fd, data)
+        return data
+
+    def _read_noncanon(self, fd, o, n, vmin, vtime, f):
+        """non-canonical tty read with MIN/TIME other than 1/0 (termios(3), Linux n_tty_read)"""
+        buf = o.inq
+        nonblock = bool(o.flags & _os.O_NONBLOCK)
+        want = max(1, min(vmin, n))
+        self.w.probe("read_min_time")
+        if vmin == 0 and vtime == 0:
+            pass                                        # polling read: whatever is there, possibly nothing
+        elif len(buf) < want:
+            if nonblock:
+                if not buf:
+                    self.w.log.add("read", fd, n, "EAGAIN")
+                    raise BlockingIOError(errno.EAGAIN, "Resource temporarily unavailable")
+            elif vmin == 0:
+                self.w.block_until(lambda: len(buf) > 0, self.w.now + vtime / 10.0, "read")
+            elif vtime == 0:
+                self.w.block_until(lambda: len(buf) >= want, None, "read")
+            else:
+                # inter-byte timer: starts with the first byte, restarts with every further arrival
+                self.w.block_until(lambda: len(buf) > 0, None, "read")
+                while len(buf) < want:
+                    if not self.w.block_until(lambda: len(buf) >= want,
+                                              max(self.w.now, o.last_arrival) + vtime / 10.0, "read"):
+                        if self.w.now >= o.last_arrival + vtime / 10.0:
+                            break
+        k = min(n, len(buf))
+        if f is not None and f[0] == "cap" and 0 < f[1] < k:
+            k = f[1]
+            self.w.fault("short_read")
+        data = bytes(buf[:k])
+        del buf[:k]
+        self.w.log.add("read", fd, n, data)
         return data
 
     def write(self, fd, data):
@@ -226,12 +279,13 @@ class Kernel:
 
     def select(self, rlist, wlist, xlist, timeout=None):
         self.w.seam("select")
-        if wlist or xlist:
-            raise HarnessError("select with write/except sets is not modelled")
         rl = []
         for x in rlist:
             fd = x if isinstance(x, int) else x.fileno()
             rl.append((x, fd))
+        if wlist or any((x if isinstance(x, int) else x.fileno()) not in [fd for _, fd in rl] for x in xlist):
+            raise HarnessError("select with a write set, or an except set beyond the read set, is not modelled")
+        # (an except set that repeats members of the read set: a tty or pipe never has an exceptional condition)
         for x, fd in rl:
             if fd not in self.fds:
                 if isinstance(fd, int) and 0 <= fd < FD_BASE:
@@ -364,6 +418,7 @@ class Kernel:
         if o is None or o.kind != "tty":
             raise HarnessError("arrival on a closed/non tty fd")
         o.inq.extend(data)
+        o.last_arrival = self.w.now
         if o.attrs[3] & _termios.ECHO:
             # the line discipline echoes what is typed (control characters as ^X with ECHOCTL): this is what a
             # terminal's answer to a query looks like on the screen when the tty was not put into cbreak first
@@ -400,6 +455,7 @@ class Signals:
         self.handlers = {_signal.SIGINT: _signal.default_int_handler}
         self.wakeup_fd = -1
         self.pending = []
+        self.blocked = set()        # the main thread's signal mask (signal.pthread_sigmask)
         self.delivered = 0
         self.in_handler = 0
         self.raising_ok = False     # True while inside a blocking seam call of main
@@ -459,10 +515,40 @@ class Signals:
             return False
         return getattr(h, "sim_raises", False) is False
 
+    def _deliverable(self):
+        if not self.blocked:
+            return self.pending
+        return [s for s in self.pending if s not in self.blocked]
+
+    def pthread_sigmask(self, how, mask):
+        """the calling thread's signal mask.  Python-level handlers only ever run in the main thread, so only its
+        mask matters here: a blocked signal stays pending (and its wake-up byte unwritten) until it is unblocked,
+        and is then delivered before the call returns (signal.pthread_sigmask checks for signals itself)."""
+        self.w.seam("pthread_sigmask")
+        mask = set(int(x) for x in mask)
+        if not (self.is_main() and self.app_is_main):
+            return set()
+        old = set(self.blocked)
+        if how == _signal.SIG_BLOCK:
+            self.blocked |= mask
+        elif how == _signal.SIG_UNBLOCK:
+            self.blocked -= mask
+        elif how == _signal.SIG_SETMASK:
+            self.blocked = set(mask)
+        else:
+            raise _sim_oserror(errno.EINVAL, "Invalid argument")
+        self.blocked -= {int(_signal.SIGKILL), int(_signal.SIGSTOP)}
+        self.w.log.add("sigmask", sorted(self.blocked))
+        self.w.probe("signal_mask_changed")
+        if self._deliverable() and not self.in_handler:
+            self.deliver_pending(allow_raising=True)
+        return set(_signal.Signals(x) for x in old)
+
     def _main_wake(self, blocked_in):
-        if not self.pending or not self.app_is_main:
+        d = self._deliverable()
+        if not d or not self.app_is_main:
             return False
-        return blocked_in in RAISING_SEAMS or self._returns_normally(self.pending[0])
+        return blocked_in in RAISING_SEAMS or self._returns_normally(d[0])
 
     def _on_main_line(self):
         if self.pending and self.app_is_main and not self.in_handler:
@@ -478,10 +564,14 @@ class Signals:
             self.deliver_pending(allow_raising=blocking and name in RAISING_SEAMS)
 
     def deliver_pending(self, allow_raising):
-        while self.pending:
-            if not allow_raising and not self._returns_normally(self.pending[0]):
+        while True:
+            d = self._deliverable()
+            if not d:
                 return
-            signum = self.pending.pop(0)
+            if not allow_raising and not self._returns_normally(d[0]):
+                return
+            signum = d[0]
+            self.pending.remove(signum)
             self.deliver(signum)
 
     def deliver(self, signum):
